@@ -45,8 +45,6 @@ def validate_output_conflicts(
         GraphConfigError: If multiple nodes produce the same output and they
             are neither mutex nor ordered.
     """
-    expanded_groups = _expand_mutex_groups(G, nodes)
-
     # Collect outputs that have multiple producers
     contested_outputs = {output: sources for output, sources in output_to_sources.items() if len(sources) > 1}
     if not contested_outputs:
@@ -65,6 +63,7 @@ def validate_output_conflicts(
 
     if explicit_edges:
         # Explicit mode: trust the declared topology directly
+        expanded_groups = _expand_mutex_groups(G, nodes)
         for output, sources in contested_outputs.items():
             for a, b in combinations(sources, 2):
                 if _is_pair_mutex(a, b, expanded_groups):
@@ -84,6 +83,13 @@ def validate_output_conflicts(
 
     # Auto-inference mode: build complete edge map with edges from ALL producers
     node_names, edge_map = _build_full_edge_map(G, nodes, output_to_sources)
+
+    # Branch membership follows the edges of every producer: G carries data edges
+    # from the first producer of a shared name only
+    full = nx.DiGraph()
+    full.add_nodes_from(node_names)
+    full.add_edges_from(edge_map)
+    expanded_groups = _expand_mutex_groups(full, nodes)
 
     for output, sources in contested_outputs.items():
         # Find all outputs contested by THIS set of producers
